@@ -211,14 +211,14 @@ void __tsan_vptr_read(void **vptr) { rd::access((uintptr_t) vptr, 8, false, PC);
 // atomics: performed for real; seq_cst/acq/rel ones synchronise through a per-address clock and never
 // race with each other (a plain access racing with an atomic one is still reported)
 #define ATOMIC_OPS(N, T)                                                                                      \
-    T __tsan_atomic##N##_load(const volatile T *a, int) {                                                     \
+    T __tsan_atomic##N##_load(const volatile T *a, int mo) {                                                  \
         rd::access((uintptr_t) a, sizeof(T), false, PC, true);                                                \
-        rd_acquire((const void *) a);                                                                         \
+        if (mo != 0) rd_acquire((const void *) a); /* a relaxed load synchronises with nothing */            \
         return __atomic_load_n(a, __ATOMIC_SEQ_CST);                                                          \
     }                                                                                                         \
-    void __tsan_atomic##N##_store(volatile T *a, T v, int) {                                                  \
+    void __tsan_atomic##N##_store(volatile T *a, T v, int mo) {                                               \
         rd::access((uintptr_t) a, sizeof(T), true, PC, true);                                                 \
-        rd_release((const void *) a);                                                                         \
+        if (mo != 0) rd_release((const void *) a);                                                            \
         __atomic_store_n(a, v, __ATOMIC_SEQ_CST);                                                             \
     }                                                                                                         \
     T __tsan_atomic##N##_exchange(volatile T *a, T v, int) {                                                  \
